@@ -85,7 +85,11 @@ func MatchMain(eng *Engine) (bind inputrc.Bind, command func(), prefix bool) {
 	// There is one self-insert bind per printable ASCII character only: the
 	// first byte of a multibyte UTF-8 character does not match anything.
 	// Read the whole character, and insert it if the keymap inserts text.
-	if command == nil && !prefix && len(read) == 1 && read[0] >= utf8.RuneSelf && eng.insertsText() {
+	// (A few of those bytes also start the bind of some other character: the following
+	// bytes, which have been tested against it without success, are not consumed yet.)
+	if command == nil && !prefix && len(read) >= 1 && read[0] >= utf8.RuneSelf && eng.insertsText() {
+		core.PutBack(eng.keys, read[1:]...)
+
 		if char, complete := eng.readCharacter(read[0]); complete {
 			core.MatchedKeys(eng.keys, char)
 
